@@ -95,6 +95,7 @@ RULE = ('index maps: EXHAUSTIVE over all 2^(q*d) multi-indices and all bit '
     'TT rank >= 2 and some inner QTT bond >= 2, or an index-map pair (d, q) '
     'with d >= 2 and q >= 2')
 REQUIRED = {
+    'imap-narrow-dtype': 50,
     'imap-bits': 10, 'imap-inverse': 10, 'imap-roundtrip': 20,
     'imap-bijective': 20, 'imap-batch-vs-row': 20, 'imap-1d': 20,
     'imap-reject': 10,
@@ -287,7 +288,8 @@ def make_core(rng, fam, r1, q, r2):
     if fam == 'scaled':
         sub = ['generic', 'lowqtt', 'decay'][int(rng.integers(3))]
         G = make_core(rng, sub, r1, q, r2)
-        return G * 10.0 ** int(rng.choice([-4, -3, -2, -1, 1, 2, 3, 4]))
+        return G * 10.0 ** int(rng.choice([-4, -3, -2, -1, 1, 2, 3, 4, -8,
+            -10, -12, -20, -30, 8, 12, 20]))
     if fam == 'generic':
         G = rng.normal(size=(r1, n, r2))
     elif fam in ('lowqtt', 'decay', 'band'):
@@ -500,6 +502,28 @@ def run_imap_large(case, ctx, teneva):
         and _is_int_array(t, (d,)) and t.tolist() == Il[0],
         f'single index, n=2^{q}: {Il[0]} -> {np.asarray(f).tolist()}, '
         f'back {np.asarray(t).tolist()}')
+    # bit strings stored in a narrow dtype (bits need one bit, callers do
+    # store them as int8 / uint8 / bool): the index arithmetic must not be
+    # done in the dtype of the argument
+    for dt in (np.int8, np.uint8, np.int16, np.int32, np.bool_, np.uint16):
+        Bn = np.array(Bl, dtype=dt)
+        try:
+            Tn = teneva.ind_qtt_to_tt(Bn, q)
+        except (TypeError, ValueError):
+            ctx.event('imap-narrow-dtype-rejected:' + np.dtype(dt).name)
+            continue
+        ctx.check('imap-narrow-dtype', _is_int_array(Tn, (m, d))
+            and Tn.tolist() == Il, lambda: f'ind_qtt_to_tt wrong for bits of '
+            f'dtype {np.dtype(dt).name}, q={q}: '
+            + _first_bad(np.array(Bl), Tn, np.array(Il)))
+    # and the indices themselves in the narrowest dtype that holds them
+    for dt in (np.int16, np.uint16, np.int32, np.uint32):
+        if n - 1 > np.iinfo(dt).max:
+            continue
+        Fn = teneva.ind_tt_to_qtt(np.array(Il, dtype=dt), n)
+        ctx.check('imap-narrow-dtype', _is_int_array(Fn, (m, d * q))
+            and Fn.tolist() == Bl, lambda: f'ind_tt_to_qtt wrong for indices '
+            f'of dtype {np.dtype(dt).name}, n=2^{q}')
     ctx.event('imap-sampled-large-q')
 
 
